@@ -42,8 +42,15 @@ def main():
     except SystemExit:
         raise
     except BaseException:
-        # a crash of the harness itself is reported as such, not as a property violation
         traceback.print_exc()
+        from mc.harness import CURRENT
+
+        found = [c for c in CURRENT if c.violations]
+        if found:
+            # violations of the property were already established before the harness tripped: report them
+            print("note: the harness failed after violations had been recorded; reporting those")
+            sys.exit(found[0].finish())
+        # a crash of the harness itself is reported as such, not as a property violation
         print("HARNESS-ERROR property=%s" % pid)
         sys.exit(2)
     sys.exit(rc)
